@@ -720,6 +720,7 @@ ldb_version_record_read_sample(ldb_version_t *ver, const ldb_slice_t *ikey) {
 
 void
 ldb_version_ref(ldb_version_t *ver) {
+  LCDB_ACC("verref", ver->vset, 1);
   ++ver->refs;
 }
 
@@ -727,6 +728,8 @@ void
 ldb_version_unref(ldb_version_t *ver) {
   assert(ver != &ver->vset->dummy_versions);
   assert(ver->refs >= 1);
+
+  LCDB_ACC("verref", ver->vset, 1);
 
   --ver->refs;
 
